@@ -1,5 +1,6 @@
 """C32 - pubsub message batching delivers in order within the size limit.
 design : MsgBuffer_MC - every Send/TimerFlush/Close/Drain interleaving over small max/capacity/sizes  [TLC exhaustive]
+         MsgBufferClose - mutex protocol between Close (timer.Stop) and the timer callback: Close returns [TLC, liveness]
 binding: (tv) seeded scenarios recorded from the real pubsub.MessageBuffer (exported API only) validated against
          MsgBuffer_Trace: drained batches must be the spec queue's head, real encoded length == spec WireSize, <= max"""
 import json
@@ -30,12 +31,18 @@ def run(ctx):
     if ctx.only is None:
         vlib.tlc_mc(ctx, "MsgBuffer_MC", ctx.pick("MsgBuffer_MC_quick.cfg", "MsgBuffer_MC.cfg"), coverage=True,
                     allow_zero=("MCSendOrig", "SendAsOriginallyCoded"))
+        vlib.tlc_mc(ctx, "MsgBufferClose", "MsgBufferClose.cfg", label="close", workers=2)
         if not ctx.quick:
+            r = vlib.tlc_mc(ctx, "MsgBufferClose", "MsgBufferClose_original.cfg", label="close-orig", workers=2,
+                            expect_violation=True)
+            ctx.cov["design_step_detects_stop_under_mutex"] = bool(r["violated"])
+            if not r["violated"]:
+                raise vlib.Infra("sensitivity: Stop() under the mutex no longer deadlocks in MsgBufferClose")
             r = vlib.tlc_mc(ctx, "MsgBuffer_MC", "MsgBuffer_MC_original.cfg", label="orig", expect_violation=True)
             ctx.cov["design_step_detects_payload_only_accounting"] = bool(r["violated"])
             if not r["violated"] or "BatchWithinMax" not in r["violated"]:
                 raise vlib.Infra("sensitivity: the model of payload-only pendingSize no longer violates BatchWithinMax")
-    scenarios = ctx.pick(200, 3000)
+    scenarios = ctx.pick(150, 3000)
     rc, out = vlib.go_driver(ctx, PKG, "^TestVerifMsgBufferRecord$", files=FILES, env={"VERIF_SCENARIOS": scenarios})
     if rc != 0:
         raise vlib.Infra("msgbuffer recorder failed:\n" + out[-3000:])
